@@ -165,6 +165,14 @@ func Grant(tid int, wait time.Duration) bool {
 
 // Next returns the next observation, or Kind "timeout".
 func Next(wait time.Duration) Obs {
+	if wait <= 0 {
+		select {
+		case o := <-obsCh:
+			return o
+		default:
+			return Obs{-1, "timeout", ""}
+		}
+	}
 	select {
 	case o := <-obsCh:
 		return o
